@@ -1,6 +1,7 @@
 package c02
 
 import (
+	"math"
 	"math/big"
 	"strconv"
 	"strings"
@@ -82,6 +83,11 @@ func floatLeaf(format string, f float64) *cv {
 	case "single-float", "short-float":
 		return leaf("sf", fmtF(float64(float32(f)), 32))
 	case "long-float":
+		// slip gives a long float a precision proportional to the number of digits written; only values
+		// that are exact with 3 bits of mantissa are demanded exactly
+		if m, _ := math.Frexp(f); m*8 != math.Trunc(m*8) {
+			return nil
+		}
 		return leaf("lf", new(big.Float).SetFloat64(f).Text('g', 18))
 	}
 	return leaf("df", fmtF(f, 64))
@@ -445,7 +451,7 @@ func init() {
 	add(quoted("'", "quote", a), true)
 	add(quoted("'", "quote", list(a, b)), false)
 	add(quoted("#'", "function", sym("car")), false)
-	add(quoted("`", "backquote", list(a, quoted(",", "comma", b), quoted(",@", "comma-at", cc))), false)
+	add(quoted("`", "backquote", list(a, quoted(",", "comma", b), quoted(",@", "commaat", cc))), false)
 	add(quoted("'", "quote", pipe("|Foo|", "Foo")), false)
 	add(quoted("'", "quote", str(`"s"`, "s")), false)
 	add(quoted("'", "quote", atom("12")), false)
@@ -487,12 +493,25 @@ type text struct {
 	ann   string
 	forms []form // top-level forms in order
 	toks  []tok  // the tokens it was built from
+	spans []span // where each of those tokens sits in src
+}
+
+type span struct{ start, end int }
+
+// tokenClassAt: class of the table token that holds byte k-1 ("" = none).
+func (t *text) tokenClassAt(k int) string {
+	for i, sp := range t.spans {
+		if sp.start < k && k <= sp.end {
+			return t.toks[i].class
+		}
+	}
+	return ""
 }
 
 type form struct {
 	start, end int // byte offsets: [start,end) without leading white space
-	class string
-	den   func(c cfg) *cv
+	class      string
+	den        func(c cfg) *cv
 }
 
 func build(ctx string, ts []tok, sp []sepT, lead, trail string) text {
@@ -508,17 +527,20 @@ func build(ctx string, ts []tok, sp []sepT, lead, trail string) text {
 			st := len(t.src)
 			put(k.text, k.ann)
 			t.forms = append(t.forms, form{start: st, end: len(t.src), class: k.class, den: k.den})
+			t.spans = append(t.spans, span{st, len(t.src)})
 		}
 		put(trail, rep('w', len(trail)))
 		return t
 	}
 	// one compound form
 	inner := tok{}
+	var rel []span
 	for i, k := range ts {
 		if 0 < i {
 			inner.text += sp[i-1].text
 			inner.ann += sp[i-1].ann
 		}
+		rel = append(rel, span{len(inner.text), len(inner.text) + len(k.text)})
 		inner.text += k.text
 		inner.ann += k.ann
 	}
@@ -553,6 +575,9 @@ func build(ctx string, ts []tok, sp []sepT, lead, trail string) text {
 	}
 	st := len(t.src)
 	put(open, openAnn)
+	for _, sp := range rel {
+		t.spans = append(t.spans, span{len(t.src) + sp.start, len(t.src) + sp.end})
+	}
 	put(inner.text, inner.ann)
 	put(close, closeAnn)
 	t.forms = append(t.forms, form{start: st, end: len(t.src), class: class, den: func(c cfg) *cv {
@@ -601,16 +626,11 @@ func cutCtx(ann string, k int) string {
 			return "in-char"
 		}
 		return "char-end"
-	case 'x':
-		if n == 'x' {
-			return "in-radix"
+	case 'x', 'b': // digits after #x #b #o #3r, bits after #*
+		if n == l {
+			return "in-sharp-number"
 		}
-		return "radix-end"
-	case 'b':
-		if n == 'b' {
-			return "in-bits"
-		}
-		return "bits-end"
+		return "sharp-number-end"
 	case ';':
 		return "in-line-comment"
 	case 'B':
